@@ -117,13 +117,28 @@ func buildTask(c *Case, trace string, explicitSingleVariation bool) *task.Task {
 		}
 	}
 	hook := func(tok, shape string) []string {
+		var seq []string
 		switch shape {
 		case "ok":
-			return []string{fmt.Sprintf(`echo %s >> "$TRACE"; echo %s`, tok, tok)}
+			seq = []string{"ok"}
 		case "fail":
-			return []string{fmt.Sprintf(`echo %s >> "$TRACE"; echo %s; exit 1`, tok, tok)}
+			seq = []string{"fail"}
+		case "okok":
+			seq = []string{"ok", "ok"}
+		case "okfail":
+			seq = []string{"ok", "fail"}
+		case "failok":
+			seq = []string{"fail", "ok"}
 		}
-		return nil
+		var out []string
+		for i, o := range seq {
+			cmd := fmt.Sprintf(`echo %s.%d >> "$TRACE"; echo %s.%d`, tok, i+1, tok, i+1)
+			if o == "fail" {
+				cmd += "; exit 1"
+			}
+			out = append(out, cmd)
+		}
+		return out
 	}
 	t.Before = hook("b", c.Nb)
 	t.After = hook("a", c.Na)
@@ -131,7 +146,8 @@ func buildTask(c *Case, trace string, explicitSingleVariation bool) *task.Task {
 	case "true":
 		t.Condition = "exit 0"
 	case "false":
-		t.Condition = "exit 1"
+		// any non-zero status of the condition skips the task: it exits with the case's status K
+		t.Condition = fmt.Sprintf("exit %d", c.K)
 	}
 	t.AllowFailure = c.Allow
 	return t
@@ -301,7 +317,8 @@ func (s *shared) randomRows(n int) (int, map[string]interface{}) {
 	rng := s.env.Rand("taskrun-rows")
 	cases := make([]*Case, n)
 	for i := range cases {
-		c := &Case{Nb: []string{"none", "ok", "fail"}[weighted(rng, 5, 4, 1)], Na: []string{"none", "ok", "fail"}[weighted(rng, 4, 4, 2)],
+		shapes := []string{"none", "ok", "fail", "okok", "okfail", "failok"}
+		c := &Case{Nb: shapes[weighted(rng, 5, 4, 1, 2, 1, 1)], Na: shapes[weighted(rng, 4, 4, 2, 2, 1, 1)],
 			Cond: []string{"none", "true", "false"}[weighted(rng, 6, 3, 1)], Nv: 1 + rng.Intn(5), Nc: rng.Intn(9), Allow: rng.Intn(3) == 0, K: 1 + rng.Intn(255), F: [][]int{}}
 		for v := 1; v <= c.Nv; v++ {
 			for k := 1; k <= c.Nc; k++ {
